@@ -93,9 +93,27 @@ class Algebra(Relation):
     shards = {'quick': 8, 'thorough': 16}
 
     def strategy(self, tier):
+        base = _cluster(G.compound(_near_leaf(), max_depth=3))
+
+        # twins: the second operand is the first one moved by a few 1e-6 of
+        # its (large) coordinates - the two compare EQUAL (PixCoord.__eq__
+        # is allclose with rtol 1e-5) and are different regions all the same
+        def twins(t):
+            spec, far, frac, sx, sy = t
+            r1 = spec['r1']
+            if r1['cls'] == 'CompoundPixelRegion':
+                return spec
+            from vf.props.c15 import translate
+            a = translate(r1, sx * far, sy * 0.75 * far)
+            a.pop('origin', None)
+            b = translate(a, frac * far, -0.5 * frac * far)
+            return dict(spec, r1=a, r2=b, twins=True)
+        tw = st.tuples(base, st.floats(5, 6).map(lambda e: 10.0 ** e),
+                       st.floats(2e-6, 8e-6), st.sampled_from([-1, 1]),
+                       st.sampled_from([-1, 1])).map(twins)
         return st.fixed_dictionaries({
             'query': Q.query_strategy(32),
-            'region': _cluster(G.compound(_near_leaf(), max_depth=3)),
+            'region': st.one_of(base, base, base, base, tw),
         })
 
     def check(self, sp, ctx):
